@@ -4,8 +4,6 @@ pub struct IsoGroups {
     pub year: Seq<u8>, pub month: Seq<u8>, pub day: Seq<u8>, pub hour: Seq<u8>, pub minute: Seq<u8>, pub second: Seq<u8>,
     pub frac: Option<Seq<u8>>, pub offset: Seq<u8>,
 }
-/// TRUSTED (regex language): whether and how the anchored pattern matches; uninterpreted, constrained only by axiom_iso_groups_shape
-pub uninterp spec fn iso_groups(s: Seq<u8>) -> Option<IsoGroups>;
 pub open spec fn is_digit(b: u8) -> bool { 0x30 <= b <= 0x39 }
 pub open spec fn all_digits(s: Seq<u8>) -> bool { forall|i: int| 0 <= i < s.len() ==> is_digit(#[trigger] s[i]) }
 /// decimal value of a digit string
@@ -31,10 +29,94 @@ pub open spec fn groups_shape(g: IsoGroups) -> bool {
     &&& (g.frac is Some ==> g.frac->Some_0.len() >= 1 && all_digits(g.frac->Some_0))
     &&& offset_shape(g.offset)
 }
+// ---- the language of ISO_8601_REGEX (chronoutil.rs), transcribed: the anchored pattern read left to right on Latin-1 input ----
+//   ^ (\d{4}) -? (0[1-9]|1[0-2]) -? (0[1-9]|[12][0-9]|3[01]) T ([01][0-9]|2[0-3]) :? ([0-5][0-9]) :? ([0-5][0-9]|6[0-1]) (?:[.,]([0-9]+))? ([-+][01][0-9]:?[0-5][0-9]|Z) $
+// Every choice point is decided by the next byte (a separator cannot start a field, a digit cannot start an offset), so leftmost-first
+// matching with backtracking and this deterministic reading agree. TRUSTED as the regex crate's semantics of that exact pattern text (the
+// guard in tools/extras.py pins the text); cross-checked natively against the regex crate on a structured corpus (bounded).
+pub open spec fn digits_at(s: Seq<u8>, p: int, n: int) -> bool { 0 <= p && p + n <= s.len() && forall|i: int| p <= i < p + n ==> is_digit(#[trigger] s[i]) }
+pub open spec fn opt_sep(s: Seq<u8>, p: int, c: u8) -> int { if 0 <= p < s.len() && s[p] == c { p + 1 } else { p } }
+pub open spec fn digit_run_end(s: Seq<u8>, p: int) -> int
+    decreases s.len() - p
+{ if 0 <= p < s.len() && is_digit(s[p]) { digit_run_end(s, p + 1) } else { p } }
+pub open spec fn two_in(s: Seq<u8>, p: int, lo: int, hi: int) -> bool { digits_at(s, p, 2) && lo <= (s[p] - 0x30) * 10 + (s[p + 1] - 0x30) <= hi }
+pub open spec fn offset_lang(o: Seq<u8>) -> bool {
+    ||| o == seq![0x5au8]
+    ||| (o.len() == 5 && (o[0] == 0x2b || o[0] == 0x2d) && (o[1] == 0x30 || o[1] == 0x31) && is_digit(o[2]) && 0x30 <= o[3] <= 0x35 && is_digit(o[4]))
+    ||| (o.len() == 6 && (o[0] == 0x2b || o[0] == 0x2d) && (o[1] == 0x30 || o[1] == 0x31) && is_digit(o[2]) && o[3] == 0x3a && 0x30 <= o[4] <= 0x35 && is_digit(o[5]))
+}
+pub open spec fn iso_groups(s: Seq<u8>) -> Option<IsoGroups> {
+    let p1 = opt_sep(s, 4, 0x2d);
+    let p2 = opt_sep(s, p1 + 2, 0x2d);
+    let p3 = p2 + 2;
+    let p4 = p3 + 1;
+    let p5 = opt_sep(s, p4 + 2, 0x3a);
+    let p6 = opt_sep(s, p5 + 2, 0x3a);
+    let p7 = p6 + 2;
+    let has_frac = p7 + 1 < s.len() && (s[p7] == 0x2e || s[p7] == 0x2c) && is_digit(s[p7 + 1]);
+    let p8 = if has_frac { digit_run_end(s, p7 + 1) } else { p7 };
+    if digits_at(s, 0, 4) && two_in(s, p1, 1, 12) && two_in(s, p2, 1, 31) && p3 < s.len() && s[p3] == 0x54
+        && two_in(s, p4, 0, 23) && two_in(s, p5, 0, 59) && two_in(s, p6, 0, 61) && p8 <= s.len() && offset_lang(s.subrange(p8, s.len() as int))
+    {
+        Some(IsoGroups {
+            year: s.subrange(0, 4), month: s.subrange(p1, p1 + 2), day: s.subrange(p2, p2 + 2), hour: s.subrange(p4, p4 + 2),
+            minute: s.subrange(p5, p5 + 2), second: s.subrange(p6, p6 + 2),
+            frac: if has_frac { Some(s.subrange(p7 + 1, p8)) } else { None::<Seq<u8>> },
+            offset: s.subrange(p8, s.len() as int),
+        })
+    } else { None }
+}
+pub proof fn lemma_digit_run(s: Seq<u8>, p: int)
+    requires 0 <= p <= s.len()
+    ensures p <= digit_run_end(s, p) <= s.len(), forall|i: int| p <= i < digit_run_end(s, p) ==> is_digit(#[trigger] s[i]),
+        digit_run_end(s, p) < s.len() ==> !is_digit(s[digit_run_end(s, p)]),
+    decreases s.len() - p
+{ if p < s.len() && is_digit(s[p]) { lemma_digit_run(s, p + 1); } }
+/// the groups of a match have the widths and digit-ness the conversions in parse_from_iso8601 rely on (was an axiom; now proved)
+pub proof fn lemma_iso_groups_shape(s: Seq<u8>)
+    ensures iso_groups(s) is Some ==> groups_shape(iso_groups(s)->Some_0)
+{
+    if iso_groups(s) is Some {
+        let g = iso_groups(s)->Some_0;
+        let p1 = opt_sep(s, 4, 0x2d);
+        let p2 = opt_sep(s, p1 + 2, 0x2d);
+        let p4 = p2 + 3;
+        let p5 = opt_sep(s, p4 + 2, 0x3a);
+        let p6 = opt_sep(s, p5 + 2, 0x3a);
+        let p7 = p6 + 2;
+        assert(all_digits(g.year)) by { assert forall|i: int| 0 <= i < g.year.len() implies is_digit(#[trigger] g.year[i]) by { assert(g.year[i] == s[i]); } }
+        assert(all_digits(g.month)) by { assert forall|i: int| 0 <= i < g.month.len() implies is_digit(#[trigger] g.month[i]) by { assert(g.month[i] == s[p1 + i]); } }
+        assert(all_digits(g.day)) by { assert forall|i: int| 0 <= i < g.day.len() implies is_digit(#[trigger] g.day[i]) by { assert(g.day[i] == s[p2 + i]); } }
+        assert(all_digits(g.hour)) by { assert forall|i: int| 0 <= i < g.hour.len() implies is_digit(#[trigger] g.hour[i]) by { assert(g.hour[i] == s[p4 + i]); } }
+        assert(all_digits(g.minute)) by { assert forall|i: int| 0 <= i < g.minute.len() implies is_digit(#[trigger] g.minute[i]) by { assert(g.minute[i] == s[p5 + i]); } }
+        assert(all_digits(g.second)) by { assert forall|i: int| 0 <= i < g.second.len() implies is_digit(#[trigger] g.second[i]) by { assert(g.second[i] == s[p6 + i]); } }
+        if g.frac is Some {
+            lemma_digit_run(s, p7 + 1);
+            lemma_digit_run(s, p7 + 2);
+            let f = g.frac->Some_0;
+            assert(all_digits(f)) by { assert forall|i: int| 0 <= i < f.len() implies is_digit(#[trigger] f[i]) by { assert(f[i] == s[p7 + 1 + i]); } }
+        }
+    }
+}
+
 pub open spec fn latin1_only(s: Seq<char>) -> bool { forall|i: int| 0 <= i < s.len() ==> (#[trigger] s[i] as u32) < 256 }
-/// TRUSTED (chrono calendar): which (y, m, d) exist and the day number of a date; uninterpreted
-pub uninterp spec fn ymd_valid(y: int, m: int, d: int) -> bool;
-pub uninterp spec fn ymd_days(y: int, m: int, d: int) -> int;
+/// the proleptic Gregorian calendar: which (y, m, d) exist, and the day number of a date counted from 1970-01-01 (days-from-civil).
+/// TRUSTED as chrono's `NaiveDate::from_ymd_opt` and its day arithmetic; checked natively against chrono on EVERY (y, m, d) the pattern
+/// admits (years 0000-9999, months 01-12, days 01-31: 3 720 000 dates; standing check `calendar_exhaustive`)
+pub open spec fn is_leap(y: int) -> bool { y % 4 == 0 && (y % 100 != 0 || y % 400 == 0) }
+pub open spec fn days_in_month(y: int, m: int) -> int {
+    if m == 2 { if is_leap(y) { 29 } else { 28 } } else if m == 4 || m == 6 || m == 9 || m == 11 { 30 } else { 31 }
+}
+pub open spec fn ymd_valid(y: int, m: int, d: int) -> bool { 1 <= m <= 12 && 1 <= d <= days_in_month(y, m) }
+pub open spec fn ymd_days(y: int, m: int, d: int) -> int {
+    let yy = if m <= 2 { y - 1 } else { y };
+    let era = yy / 400;               // floor division: yy >= -1 here only matters for y = 0, m <= 2, where Verus' Euclidean division floors too
+    let yoe = yy - era * 400;
+    let mp = if m > 2 { m - 3 } else { m + 9 };
+    let doy = (153 * mp + 2) / 5 + d - 1;
+    let doe = yoe * 365 + yoe / 4 - yoe / 100 + doy;
+    era * 146097 + doe - 719468
+}
 /// fraction digits padded / truncated to exactly nine (nanoseconds)
 pub open spec fn frac9(f: Seq<u8>) -> Seq<u8> {
     if f.len() >= 9 { f.subrange(0, 9) } else { f + Seq::new((9 - f.len()) as nat, |i: int| 0x30u8) }
@@ -97,3 +179,75 @@ pub proof fn lemma_dec_bound(s: Seq<u8>)
 pub open spec fn pow10(n: nat) -> int
     decreases n
 { if n == 0 { 1 } else { 10 * pow10((n - 1) as nat) } }
+
+// ---- anchor examples for the transcription (proved by computation): they pin the reading of the pattern and of the calendar ----
+pub open spec fn EX_BASIC() -> Seq<u8> { seq![0x32u8, 0x30, 0x31, 0x35, 0x30, 0x38, 0x33, 0x30, 0x54, 0x31, 0x32, 0x33, 0x36, 0x30, 0x30, 0x5a] }   // 20150830T123600Z
+pub open spec fn EX_EXTENDED() -> Seq<u8> {   // 2015-08-30T18:06:00.5+05:30
+    seq![0x32u8, 0x30, 0x31, 0x35, 0x2d, 0x30, 0x38, 0x2d, 0x33, 0x30, 0x54, 0x31, 0x38, 0x3a, 0x30, 0x36, 0x3a, 0x30, 0x30, 0x2e, 0x35, 0x2b, 0x30, 0x35, 0x3a, 0x33, 0x30]
+}
+pub open spec fn EX_NO_ZONE() -> Seq<u8> { seq![0x32u8, 0x30, 0x31, 0x35, 0x30, 0x38, 0x33, 0x30, 0x54, 0x31, 0x32, 0x33, 0x36, 0x30, 0x30] }          // 20150830T123600
+pub open spec fn EX_TRAILING() -> Seq<u8> { seq![0x32u8, 0x30, 0x31, 0x35, 0x30, 0x38, 0x33, 0x30, 0x54, 0x31, 0x32, 0x33, 0x36, 0x30, 0x30, 0x5a, 0x20] } // ...Z + space
+pub open spec fn EX_FEB30() -> Seq<u8> { seq![0x32u8, 0x30, 0x31, 0x35, 0x30, 0x32, 0x33, 0x30, 0x54, 0x31, 0x32, 0x33, 0x36, 0x30, 0x30, 0x5a] }     // 20150230T123600Z
+pub open spec fn EX_MONTH13() -> Seq<u8> { seq![0x32u8, 0x30, 0x31, 0x35, 0x31, 0x33, 0x33, 0x30, 0x54, 0x31, 0x32, 0x33, 0x36, 0x30, 0x30, 0x5a] }   // 20151330T123600Z
+pub proof fn lemma_calendar_examples()
+    ensures
+        ymd_days(1970, 1, 1) == 0 && ymd_days(2015, 8, 30) == 16677 && ymd_days(2000, 2, 29) == 11016 && ymd_days(0, 1, 1) == -719528, //# C16 name=calendar_anchor_days
+        ymd_valid(2000, 2, 29) && !ymd_valid(1900, 2, 29) && !ymd_valid(2015, 2, 30) && !ymd_valid(2015, 4, 31) && ymd_valid(2015, 12, 31), //# C16 name=calendar_anchor_validity
+{
+    assert(ymd_days(1970, 1, 1) == 0) by (compute_only);
+    assert(ymd_days(2015, 8, 30) == 16677) by (compute_only);
+    assert(ymd_days(2000, 2, 29) == 11016) by (compute_only);
+    assert(ymd_days(0, 1, 1) == -719528) by (compute_only);
+}
+pub proof fn lemma_iso_example_basic()
+    ensures iso_groups(EX_BASIC()) is Some, iso_groups(EX_NO_ZONE()) is None, iso_groups(EX_TRAILING()) is None, iso_groups(EX_MONTH13()) is None, //# C16 name=examples_of_the_pattern_language
+{
+    let s = EX_BASIC();
+    assert(s.len() == 16);
+    assert(opt_sep(s, 4, 0x2d) == 4);
+    assert(opt_sep(s, 6, 0x2d) == 6);
+    assert(opt_sep(s, 11, 0x3a) == 11);
+    assert(opt_sep(s, 13, 0x3a) == 13);
+    assert(s.subrange(15, 16) =~= seq![0x5au8]);
+    let t = EX_NO_ZONE();
+    assert(t.len() == 15);
+    assert(opt_sep(t, 4, 0x2d) == 4 && opt_sep(t, 6, 0x2d) == 6 && opt_sep(t, 11, 0x3a) == 11 && opt_sep(t, 13, 0x3a) == 13);
+    assert(t.subrange(15, 15).len() == 0);
+    let u = EX_TRAILING();
+    assert(u.len() == 17);
+    assert(opt_sep(u, 4, 0x2d) == 4 && opt_sep(u, 6, 0x2d) == 6 && opt_sep(u, 11, 0x3a) == 11 && opt_sep(u, 13, 0x3a) == 13);
+    assert(u.subrange(15, 17).len() == 2);
+    let m = EX_MONTH13();
+    assert(opt_sep(m, 4, 0x2d) == 4);
+    assert(!two_in(m, 4, 1, 12));
+}
+pub proof fn lemma_dec2(a: u8, b: u8)
+    requires is_digit(a), is_digit(b)
+    ensures dec(seq![a, b]) == (a - 0x30) * 10 + (b - 0x30)
+{
+    reveal_with_fuel(dec, 3);
+    assert(seq![a, b].drop_last() =~= seq![a]);
+    assert(seq![a].drop_last() =~= Seq::<u8>::empty());
+}
+pub proof fn lemma_iso_example_instant()
+    ensures iso_instant(EX_BASIC()) == Some(1_440_938_160_000_000_000int), //# C16 name=example_basic_form_is_the_aws_test_suite_instant
+{
+    lemma_iso_example_basic();
+    lemma_calendar_examples();
+    let s = EX_BASIC();
+    let g = iso_groups(s)->Some_0;
+    assert(opt_sep(s, 4, 0x2d) == 4 && opt_sep(s, 6, 0x2d) == 6 && opt_sep(s, 11, 0x3a) == 11 && opt_sep(s, 13, 0x3a) == 13);
+    assert(g.year =~= seq![0x32u8, 0x30, 0x31, 0x35]);
+    assert(g.month =~= seq![0x30u8, 0x38]); assert(g.day =~= seq![0x33u8, 0x30]);
+    assert(g.hour =~= seq![0x31u8, 0x32]); assert(g.minute =~= seq![0x33u8, 0x36]); assert(g.second =~= seq![0x30u8, 0x30]);
+    assert(g.offset =~= seq![0x5au8]);
+    assert(g.frac is None);
+    lemma_dec2(0x30, 0x38); lemma_dec2(0x33, 0x30); lemma_dec2(0x31, 0x32); lemma_dec2(0x33, 0x36); lemma_dec2(0x30, 0x30);
+    assert(dec(g.year) == 2015) by {
+        reveal_with_fuel(dec, 5);
+        let y = seq![0x32u8, 0x30, 0x31, 0x35];
+        assert(y.drop_last() =~= seq![0x32u8, 0x30, 0x31]);
+        assert(seq![0x32u8, 0x30, 0x31].drop_last() =~= seq![0x32u8, 0x30]);
+        lemma_dec2(0x32, 0x30);
+    }
+}
